@@ -5,8 +5,8 @@ package c10
 import (
 	"fmt"
 	"math/bits"
-	"time"
 	"testing"
+	"time"
 
 	"github.com/markkurossi/mpc/gmw"
 	"pgregory.net/rapid"
@@ -55,7 +55,7 @@ func genTripleCase(t *rapid.T) TripleCase {
 	}
 	cs.GetDelay = make([]int, n)
 	for i := range cs.GetDelay {
-		if rapid.IntRange(0, 3).Draw(t, "getdelay?") == 0 {
+		if rapid.SampledFrom([]bool{false, false, true}).Draw(t, "getdelay?") {
 			cs.GetDelay[i] = rapid.IntRange(1, 5).Draw(t, "getdelay")
 		}
 	}
